@@ -274,6 +274,24 @@ def c07_events(version, n, seed):
         for i in range(k):
             events.append({"kind": "kin", "E": bits(tE[i]), "f": bits(frac), "g": bits(tg[i]), "bt": bits(tb[i]), "Esh": bits(Esh[i]),
                            "_m": {"ver": version, "E": float(tE[i]), "frac": frac, "gamma": float(tg[i]), "beta_tau": float(tb[i])}})
+        # the same stage with every registered plot requested (non-interactive backend): the plot functions are handed the very
+        # arrays the stage returns, and what the caller receives must still be the kinematics of the sampled taus
+        if frac in (0.5, 1e-3):
+            from nssverif import plots
+            kp = min(k, 60)
+            bp, ep = np.radians(rng.uniform(1.0, 41.0, kp)), rng.uniform(6.5, 11.5, kp)
+            try:
+                with rngmod.constant(c):
+                    pb, pg, pE, pEsh, _pp = plots.call(taus, bp.copy(), ep.copy(), plot=True)
+            except Exception as ex:
+                pb = pg = pE = pEsh = np.full(kp, np.nan)
+                err = repr(ex)[:200]
+            else:
+                err = None
+            for i in range(kp):
+                events.append({"kind": "kin", "E": bits(pE[i]), "f": bits(frac), "g": bits(pg[i]), "bt": bits(pb[i]), "Esh": bits(pEsh[i]),
+                               "_m": {"ver": version, "E": float(pE[i]), "frac": frac, "gamma": float(pg[i]), "beta_tau": float(pb[i]),
+                                      "plots_requested": True, "error": err}})
         eas = EAS(cfg)
         uu = rng.uniform(0.0, 1.0, k)
         uu[:4] = [1.0, 5e-324, 1e-300, np.nextafter(1.0, 0)]
